@@ -210,7 +210,7 @@ class Pol:
         fn = call.func
         args = [a for a in call.args if not isinstance(a, ast.Starred)]
         tg = [t[1] for t in self.P.resolve_callee(fn, self.f) if t[0] == "repo"]
-        if not tg or not all(isinstance(a, (ast.Name, ast.Attribute, ast.Constant)) for a in args + [k.value for k in call.keywords]):
+        if not tg or any(isinstance(a, ast.Starred) for a in call.args):
             return None
         callee = tg[0]
         bound = self.P.bind_args(callee, call.args, call.keywords)
@@ -230,7 +230,16 @@ class Pol:
         t_ = list(dict.fromkeys(t_))
         if not t_ or sub.unknown:
             return None
-        ren = {p_: src(a_) for p_, a_ in bound.items() if isinstance(a_, (ast.Name, ast.Attribute))}
+        def _is_local(a_):
+            """a plain local of the caller (not a parameter, not self): its atoms are those of its definition, not its name"""
+            if not isinstance(a_, ast.Name) or a_.id in self.opaque:
+                return False
+            try:
+                rd_ = self.du.reaching(self.du.stmt_of(call), a_.id)
+            except Exception:
+                return False
+            return bool(rd_) and all(d_.how in ("assign", "aug") for d_ in rd_)
+        ren = {p_: src(a_) for p_, a_ in bound.items() if isinstance(a_, (ast.Name, ast.Attribute)) and not _is_local(a_)}
 
         def rn(atom):
             inv = atom.startswith("1/")
@@ -241,7 +250,36 @@ class Pol:
                     break
             return ("1/" if inv else "") + base
 
-        return [(s_, frozenset(rn(x) for x in a_)) for s_, a_ in t_]
+        out = [(s_, frozenset(rn(x) for x in a_)) for s_, a_ in t_]
+        # parameters bound to compound expressions: the parameter's atom is replaced by the terms of the argument (a product of
+        # polynomials); an attribute / element of such a parameter cannot be followed
+        try:
+            cst = self.du.stmt_of(call)
+        except Exception:
+            cst = None
+        for p_, a_ in bound.items():
+            if p_ in ren:
+                continue
+            if isinstance(a_, ast.Constant):
+                at = self.terms(a_, cst) if cst is not None else []
+            else:
+                if cst is None:
+                    return None
+                at = self.terms(a_, cst)
+            new = []
+            for s_, atoms in out:
+                if any(x.startswith(p_ + ".") or x.startswith(p_ + "[") or x.startswith("1/" + p_ + ".") for x in atoms):
+                    return None
+                if p_ in atoms:
+                    rest = frozenset(x for x in atoms if x != p_)
+                    new += self._prod([(s_, rest)], at) if at else []
+                elif ("1/" + p_) in atoms:
+                    rest = frozenset(x for x in atoms if x != "1/" + p_)
+                    new += self._prod([(s_, rest)], [(q_, frozenset(_inv(y) for y in b_)) for q_, b_ in at]) if at else []
+                else:
+                    new.append((s_, atoms))
+            out = new
+        return list(dict.fromkeys(out))
 
     def _caller_terms(self, pname):
         """Terms of what the package's call sites pass for an optional (default None) parameter; None when it is not optional, no
